@@ -49,6 +49,8 @@ function e.cpfbad2(f) return f:callParserFunction({}) end
 function e.extbad(f) local ok = pcall(f.extensionTag, f, {name="ref", content="x", args=5}) return "c" .. tostring(ok) end
 function e.extbad2(f) return f:extensionTag({name={}, content={}}) end
 function e.argbad(f) return f.args[{}] end
+function e.preboom(f) local ok, r = pcall(f.preprocess, f, "{{#if:x|{{ta|{{boom}}}}}}") return "c" .. tostring(ok) end
+function e.etboom(f) return f:expandTemplate{title="td", args={"{{boom}}"}} end
 function e.nestbad(f) return f:preprocess("{{#invoke:m|etbad}}{{#invoke:m|ok}}") end
 return e'''
 SPECIAL = [
@@ -62,13 +64,22 @@ SPECIAL = [
     "{{#invoke:m|etbad}}", "{{#invoke:m|etbad2}}", "{{#invoke:m|etbad3}}", "{{#invoke:m|prebad}}", "{{#invoke:m|prebad2}}",
     "{{#invoke:m|cpfbad}}", "{{#invoke:m|cpfbad2}}", "{{#invoke:m|extbad}}", "{{#invoke:m|extbad2}}", "{{#invoke:m|argbad}}",
     "{{#invoke:m|nestbad}}", "{{#invoque:m|ok}}", "{{#invoque:m|err}}", "{{winv}}{{#invoque:m|etbad}}",
+    # {{boom}}: an exception inside a nested sub-expansion (raised by the caller's own hook under the 'raise' hook
+    # policy; an ordinary missing template otherwise): where the product turns it into an in-band error the path
+    # entries of the interrupted sub-expansions must be gone
+    "{{#if:x|{{ta|{{boom}}}}}}", "{{#switch:a|a={{tb|{{boom}}}}|b}}", "{{#ifeq:{{boom}}|a|b|c}}", "{{td|{{#if:1|{{boom}}}}}}",
+    "{{lc:{{#if:x|{{boom}}}}}}", "{{#invoke:m|ok|{{#if:x|{{boom}}}}}}", "{{#if:x|{{#invoke:m|ok|{{boom}}}}}}", "{{ta|{{boom}}}}",
+    "{{#if:{{#if:{{boom}}|a}}|b}}", "{{#invoke:m|preboom}}", "{{#invoke:m|etboom}}",
+    # argument names that are digits but not decimal numbers, as call arguments and as {{{name}}} references
+    "{{#if:x|{{ta|a|\u2460=one}}}}", "{{#if:x|{{ta|\u00b2=b}}}}", "{{#switch:a|a={{tu|x|\u0663=y}}}}", "{{tu|\u2460=1}}",
+    "{{#if:x|{{tu}}}}", "{{lc:{{tu|\u0968=z}}}}",
 ]
 TIMEOUT_PAGES = {"{{#invoke:m|spin}}", "{{#invoke:m|prespin}}"}
 
 
 def floors(tier):
     return {"oracle.expand.stack": 2000, "oracle.parse.stack": 200, "oracle.messages-shape": 2000,
-            "oracle.start_page.post": 500, "oracle.repeat-no-new-depth-error": 20, "sets.option_combos": 16,
+            "oracle.start_page.post": 500, "oracle.repeat-no-new-depth-error": 20, "sets.option_combos": 27, "counters.calls_raising(ValueError)": 5, "counters.hook-raised-and-call-returned": 20,
             "counters.nested_contract_evals": 50, "counters.messages_checked": 500,
             "counters.calls_with_lua_error": 20, "counters.calls_with_template_loop": 20}
 
@@ -89,7 +100,8 @@ class Mon:
         self.cm = fresh(lua=True, **kw, pages=[
             ("Template:ta", 10, "[{{{1|}}}]"), ("Template:tb", 10, "{{ta|{{{1|b}}}}}{{{n|}}}"),
             ("Template:tc", 10, "* {{{1}}}"), ("Template:td", 10, "{{#if:{{{1|}}}|{{tb|{{{1}}}}}|none}}"),
-            ("Template:te", 10, ""), ("Template:loop", 10, "{{loop}}"), ("Template:l2", 10, "{{l3}}"),
+            ("Template:te", 10, ""), ("Template:tu", 10, "{{{\u00b2|2}}}{{{\u2460|}}}{{{\u0663|}}}{{{\u0968|d}}}{{{1|}}}"),
+            ("Template:loop", 10, "{{loop}}"), ("Template:l2", 10, "{{l3}}"),
             ("Template:l3", 10, "{{l2|{{l3}}}}"), ("Template:winv", 10, "{{#invoke:m|par}}{{#invoke:m|ok|{{{1|}}}}}"),
             ("Module:m", 828, MODULE)])
         self.ctx = self.cm.__enter__()
@@ -139,9 +151,13 @@ class Mon:
         """One top-level call on the real context; returns (problems, result)."""
         ctx = self.ctx
         calls = []
+        raised = []
 
         def hook(name, args):
             calls.append(name)
+            if opt["hook"] == "raise" and name == "boom":
+                raised.append(1)
+                raise ValueError("hook failure")
             return None
         kw = {}
         api = opt["api"]
@@ -170,6 +186,8 @@ class Mon:
             # totality is C05's business; here only the stack after a *returning* call matters
             self.obs.count("calls_raising(" + type(e).__name__ + ")")
             return [], None
+        if raised:
+            self.obs.count("hook-raised-and-call-returned")
         if list(ctx.expand_stack) != before:
             probs.append(("expand_stack-changed-by-%s" % api, "before=%r after=%r" % (before, ctx.expand_stack[-6:])))
         for name, d in contracts.drain():
@@ -182,6 +200,8 @@ def option_list():
     out = []
     for pf, inv, pre, hook in itertools.product([True, False], repeat=4):
         out.append({"api": "expand", "pf": pf, "inv": inv, "pre": pre, "hook": hook})
+    for pf, inv, pre in itertools.product([True, False], repeat=3):
+        out.append({"api": "expand", "pf": pf, "inv": inv, "pre": pre, "hook": "raise"})
     out.append({"api": "parse", "pre": True})
     out.append({"api": "parse", "pre": False})
     out.append({"api": "expand", "pf": True, "inv": True, "pre": False, "hook": False, "quiet": True})
